@@ -1,4 +1,6 @@
 import NimaVerif.Lemmas.Trivia
+import NimaVerif.Lemmas.FragNFParse
+import NimaVerif.Lemmas.FragFixed
 /-!
 # C06 — rebuilt text is a fixed point (trivia algebra)
 
@@ -190,5 +192,113 @@ example : gapText (appendGapTrivia [] " \t".toList ++ [.comment { text := "c".to
     = "\n  # c\n\n  ".toList := by decide
 example : (Comment.fromText 2 "/* a\n       b\n  */".toList).token 2 = "/* a\n       b\n  */".toList := by decide
 example : (Comment.fromText 7 "/* x\n          y */".toList).token 0 = "/* x\n   y */".toList := by decide
+
+section Fragment
+open Nima.Frag
+
+/-! ## Container fragment (L3–L5): the second pass
+
+Same models as `Props/C01.lean` (section Fragment). The second pass reads the OUTPUT of the first
+one: tree-sitter returns some well-formed tree `f2` whose `flatten` is that text (the parser
+contract, checked on every sample by `harness/cstdump.py`), and the fixed-point property says
+that parsing and rebuilding `f2` gives the same text again. The statement below quantifies over
+EVERY such `f2`, so no function "the CST of the output" is needed to state it. -/
+
+/-- full statement: the rebuilt text is a fixed point, whatever tree the parser returns for it -/
+def frag_fixed_point_full : Prop :=
+  ∀ (f f2 : File) (s s2 : Src), f.wf = true → f.noLeadingWs = true → f.parse = .ok s →
+    f2.wf = true → f2.flatten = s.rebuild → f2.parse = .ok s2 → s2.rebuild = s.rebuild
+
+/-- first pass input `{ a = 1 # c⏎; # d⏎}` (both comments are end-of-line comments) -/
+def semiFile : File :=
+  { items := .elem [] (.set false [] (.bind " ".toList "a".toList [] " ".toList [] " ".toList (.leaf .int "1".toList)
+      [(" ".toList, "# c".toList)] "\n".toList (.cmt " ".toList "# d".toList .nil)) "\n".toList) .nil,
+    endGap := [] }
+
+/-- the tree of its output `{⏎  a = 1; # c⏎# d⏎}` -/
+def semiFile2 : File :=
+  { items := .elem [] (.set false [] (.bind "\n  ".toList "a".toList [] " ".toList [] " ".toList (.leaf .int "1".toList)
+      [] [] (.cmt " ".toList "# c".toList (.cmt "\n".toList "# d".toList .nil))) "\n".toList) .nil,
+    endGap := [] }
+
+example : semiFile.flatten = "{ a = 1 # c\n; # d\n}".toList := by decide
+example : semiFile.roundtrip = .ok "{\n  a = 1; # c\n# d\n}".toList := by decide
+example : semiFile2.flatten = "{\n  a = 1; # c\n# d\n}".toList := by decide
+example : semiFile2.roundtrip = .ok "{\n  a = 1; # c\n  # d\n}".toList := by decide
+
+/-- A comment in front of `;` and another one after it (open findings `C06-fixed-point-x-binding`,
+    `C06-pair-fixed-point-*`): the first becomes the end-of-line comment of the binding, the second
+    — an `inline` comment of the binding, rendered by `format_trivia` with indentation 0 — lands on
+    its own line at column 0; the second pass reads it as an own-line comment and indents it.
+    (`expressions/binding.py`: `Binding.rebuild` concatenates `value.after + self.after`;
+    `comment.py`: `rebuild` forces indent 0 for `inline` comments.) -/
+theorem cex_comment_around_semicolon : ¬ frag_fixed_point_full := by
+  intro h
+  have := h semiFile semiFile2 _ _ (by decide) (by decide) rfl (by decide) (by decide) rfl
+  revert this; decide
+
+/-- The second pass is always defined and keeps tokens and (when no comment overtakes another)
+    comments of the tree it reads — the instance of `C01.frag_parse_total` /
+    `C01.frag_tokens_preserved` for `f2`. What is NOT proved is the equality of the whitespace. -/
+theorem frag_second_pass_tokens (f2 : File) (hwf : f2.wf = true) :
+    ∃ s2, f2.parse = .ok s2 ∧ toks s2.rebuildP = f2.codeTokens := by
+  obtain ⟨s2, hp, hok, hl⟩ := file_parse_spec false f2 hwf (fun h => by cases h)
+  refine ⟨s2, hp, ?_⟩
+  have h1 := (srcRebuildP_lex s2 hok).1
+  show toksL (lexOf s2.rebuildP) = toksL f2.items.lex
+  rw [h1, ← toksL_proj_false, hl, toksL_proj_false, items_toks_lexM]
+
+/-- FIXED POINT FOR COMMENT-FREE FILES. For every well-formed file of the fragment without comments
+    (nested sets / `rec` sets / lists / bindings / leaves with arbitrary whitespace, any depth), the
+    text the round trip writes is the flattening of the well-formed comment-free tree `File.norm f`
+    — the round trip IS that tree normaliser (`file_rt`: one line break per item of a container
+    that spans lines, blank lines kept as one, two-space indentation, values on their own line
+    keep the indentation read from their gap, one-line containers joined by single spaces) — and
+    the round trip of that tree writes the same text again (`File.norm` is idempotent). `File.norm f`
+    is the tree tree-sitter returns for the output: compared with the real tree, node by node, on
+    every comment-free sample of every run (`fragment_correspondence`), which is the parser-contract
+    step. With comments the statement is false (`cex_comment_around_semicolon`) and its proof for
+    line-level comments is open. -/
+theorem frag_fixed_point_comment_free (f : File) (hwf : f.wf = true) (_hws : f.noLeadingWs = true)
+    (hcf : f.cf = true) :
+    f.norm.wf = true ∧ f.norm.noLeadingWs = true ∧ f.norm.cf = true ∧
+    f.roundtrip = .ok f.norm.flatten ∧ f.norm.roundtrip = .ok f.norm.flatten := by
+  have h := file_fixed_point f hwf hcf
+  exact ⟨h.1, h.2.2.1, h.2.1, h.2.2.2.1, h.2.2.2.2⟩
+
+/-- the normaliser is a projection -/
+theorem frag_norm_idempotent (f : File) (hwf : f.wf = true) (hcf : f.cf = true) : f.norm.norm = f.norm :=
+  file_norm_idem f hwf hcf
+
+/-- `rec⏎ {⏎⏎⏎⇥a  =⏎⏎      [ 1⏎⏎[⏎⏎  ]⇥] ; b={c= x;};⏎⏎⏎}⏎⏎⏎` -/
+def wsSample : File :=
+  { items := .elem [] (.set true "\n ".toList
+      (.bind "\n\n\n\t".toList "a".toList [] "  ".toList [] "\n\n      ".toList
+          (.list (.elem " ".toList (.leaf .int "1".toList) (.elem "\n\n".toList (.list .nil "\n\n  ".toList) .nil)) "\t".toList) [] " ".toList
+        (.bind " ".toList "b".toList [] [] [] [] (.set false [] (.bind [] "c".toList [] [] [] " ".toList (.leaf .ident "x".toList) [] [] .nil) [])
+          [] [] .nil)) "\n\n\n".toList) .nil,
+    endGap := "\n\n\n".toList }
+
+example : wsSample.wf = true ∧ wsSample.cf = true ∧ wsSample.noLeadingWs = true := by decide
+example : wsSample.norm.flatten =
+    "rec {\n\n  a =\n\n      [\n        1\n\n        [\n\n        ]\n      ];\n  b = { c = x; };\n\n}\n\n".toList := by
+  decide
+
+/-- fixed points of the model (line-level comments, canonical layout): decidable per file -/
+def isFixedPoint (f : File) : Bool := decide (f.roundtrip = .ok f.flatten)
+
+/-- `# h⏎{⏎  a = 1; # e⏎  # o⏎⏎  b = [⏎    x⏎  ];⏎}⏎` -/
+def canonicalSample : File :=
+  { items := .cmt [] "# h".toList (.elem "\n".toList
+      (.set false [] (.bind "\n  ".toList "a".toList [] " ".toList [] " ".toList (.leaf .int "1".toList) [] []
+        (.cmt " ".toList "# e".toList (.cmt "\n  ".toList "# o".toList
+        (.bind "\n\n  ".toList "b".toList [] " ".toList [] " ".toList
+          (.list (.elem "\n    ".toList (.leaf .ident "x".toList) .nil) "\n  ".toList) [] [] .nil)))) "\n".toList) .nil),
+    endGap := "\n".toList }
+
+example : canonicalSample.flatten = "# h\n{\n  a = 1; # e\n  # o\n\n  b = [\n    x\n  ];\n}\n".toList := by decide
+example : canonicalSample.wf = true ∧ isFixedPoint canonicalSample = true := by decide
+
+end Fragment
 
 end Nima.C06
